@@ -22,10 +22,10 @@ THEOREMS = {
             "ShipVerif.Reg.C11_two_sections_drop_newer",
             "ShipVerif.Life.C11_notifications_consistent", "ShipVerif.Life.lifeCfg_is_fixed", "ShipVerif.Life.linv_run",
             "ShipVerif.Life.C11_delayed_end_of_older_connection"],
-    "C05": ["ShipVerif.Hub.C10_task_guard", "ShipVerif.Hub.C10_dial_only_registered"],
+    "C05": ["ShipVerif.Hub.C05_attempts_settle", "ShipVerif.Hub.settled_step", "ShipVerif.Hub.C10_task_guard", "ShipVerif.Hub.C10_dial_only_registered"],
     "C01": ["ShipVerif.Hub.C10_trust_sources", "ShipVerif.Hub.C10_unregister_effect", "ShipVerif.Hub.C10_cancel_effect"],
 }
-IMPORTS = ["ShipVerif.Props.HubProps", "ShipVerif.Props.C15", "ShipVerif.Props.C11Reg", "ShipVerif.Props.C10Dial", "ShipVerif.Props.C10Shut", "ShipVerif.Props.C11Life"]
+IMPORTS = ["ShipVerif.Props.HubProps", "ShipVerif.Props.C15", "ShipVerif.Props.C11Reg", "ShipVerif.Props.C10Dial", "ShipVerif.Props.C10Shut", "ShipVerif.Props.C11Life", "ShipVerif.Props.C05Hub"]
 ENDED = {14, 15, 16, 17, 39}   # aborted or failed handshakes: the connection closes itself
 
 
@@ -299,7 +299,7 @@ def hub_part(R, pid, tier, seed):
     """runs proofs + engine for the hub half of `pid`; adds violations to R; returns a coverage dict"""
     obligations = THEOREMS[pid]
     changed, err = C.regen_facts()
-    p = C.lake_build(["ShipVerif.Props.HubProps", "ShipVerif.Props.C15", "ShipVerif.Props.C11Reg", "ShipVerif.Props.C10Dial", "ShipVerif.Props.C10Shut", "ShipVerif.Props.C11Life", "shipdrv"])
+    p = C.lake_build(["ShipVerif.Props.HubProps", "ShipVerif.Props.C15", "ShipVerif.Props.C11Reg", "ShipVerif.Props.C10Dial", "ShipVerif.Props.C10Shut", "ShipVerif.Props.C11Life", "ShipVerif.Props.C05Hub", "shipdrv"])
     lean_ok = p.returncode == 0 and not err
     aud = C.audit(pid + "hub", obligations, IMPORTS) if lean_ok else []
     forb = C.grep_forbidden()
